@@ -362,6 +362,12 @@ pub enum Shape {
     TypeErr(Position, String),     // A type hole We don't know what this type is yet.
 }
 
+
+/// What the narrowing cache holds for a constraint whose check against a shape
+/// has started and not finished, and for one that was asked for meanwhile.
+const NARROW_OPEN: &str = "Constraint is still being checked";
+const NARROW_OPEN_USED: &str = "Constraint refers to itself without using up any of the value";
+
 impl Shape {
     #[allow(clippy::only_used_in_recursion)]
     pub fn equivalent(&self, right: &Shape, symbol_table: &BTreeMap<Rc<str>, Shape>) -> bool {
@@ -562,9 +568,16 @@ impl Shape {
             (Shape::ConstraintRef(cref), other) | (other, Shape::ConstraintRef(cref)) => {
                 // Check the cache: have we already narrowed this constraint
                 // against this shape?
-                if let Some(cached) = seen.iter().find(|(name, shape, _)| {
+                if let Some(cached) = seen.iter_mut().find(|(name, shape, _)| {
                     *name == cref.val && shape == other
                 }) {
+                    // An answer that is still being worked out is a mismatch
+                    // for now. Remember that someone relied on that.
+                    if let Shape::TypeErr(_, msg) = &mut cached.2 {
+                        if msg == NARROW_OPEN {
+                            *msg = NARROW_OPEN_USED.to_owned();
+                        }
+                    }
                     return cached.2.clone();
                 }
                 if let Some(expanded) = symbol_table.get(&cref.val).cloned() {
@@ -575,8 +588,27 @@ impl Shape {
                             return other.clone();
                         }
                     }
+                    // The question stays open while it is being answered.
+                    // Meeting it again on the way means the constraint came
+                    // back to itself without using up any of the value, as
+                    // in `constraint a = a | 1`. Going round in a circle
+                    // proves nothing, so that way counts as a mismatch
+                    // instead of recursing for ever.
+                    let open = seen.len();
+                    seen.push((
+                        cref.val.clone(),
+                        other.clone(),
+                        Shape::TypeErr(cref.pos.clone(), NARROW_OPEN.to_owned()),
+                    ));
                     let result = other.narrow_cached(&expanded, symbol_table, seen);
-                    seen.push((cref.val.clone(), other.clone(), result.clone()));
+                    // Answers that relied on the open question are only good
+                    // for this round.
+                    if let Shape::TypeErr(_, msg) = &seen[open].2 {
+                        if msg == NARROW_OPEN_USED {
+                            seen.truncate(open + 1);
+                        }
+                    }
+                    seen[open].2 = result.clone();
                     result
                 } else {
                     Shape::TypeErr(
